@@ -218,8 +218,11 @@ class Automaton:
             self.problems.append(("S2", "state", "reachable state with a Gray/queued object in phase %s: sweeping "
                                   "started before marking was complete" % ph, self.path_to(s) + [str(s)]))
         if ph == "Sleep" and col != "W":
-            self.problems.append(("S3", "state", "object is %s while the collector sleeps: the next cycle does not "
-                                  "start clean" % col, self.path_to(s) + [str(s)]))
+            # a live object that is not White when a cycle starts is never traced (safety, S3); a value-less shell
+            # that is not White is merely never released (reclamation, S3r)
+            self.problems.append(("S3" if live == 1 else "S3r", "state",
+                                  "%s is %s while the collector sleeps: the next cycle does not start clean" % (
+                                      "object" if live == 1 else "shell", col), self.path_to(s) + [str(s)]))
 
     def check_transition(self, t):
         (ph, col, live, nt, q, cred, reg) = t.src
